@@ -115,6 +115,8 @@ pub fn verif_strategy(policies: Vec<Arc<dyn PathPolicy>>, default_scorers: bool)
 /// One cached path as seen by the manager.
 #[derive(Debug, Clone)]
 pub struct VerifCacheEntry {
+    /// The cached path object.
+    pub path: ScionPath,
     /// Data-plane fingerprint.
     pub fingerprint: DpPathFingerprint,
     /// Expiration (unix seconds).
@@ -133,6 +135,8 @@ pub struct VerifSnapshot {
     pub cache: Vec<VerifCacheEntry>,
     /// Active slot: fingerprint and expiration of the stored copy.
     pub active: Option<(DpPathFingerprint, Option<u32>)>,
+    /// Active slot: the stored path object (read without touching the usage flag).
+    pub active_path: Option<ScionPath>,
     pub next_refetch: SystemTime,
     pub next_idle_check: SystemTime,
     pub failed_attempts: u32,
@@ -305,6 +309,7 @@ impl<F: PathFetcher> VerifPathSet<F> {
             .iter()
             .map(|e| {
                 VerifCacheEntry {
+                    path: e.path.clone(),
                     fingerprint: e.path.fingerprint(),
                     expiration: e.path.expiration(),
                     score: scoring.score(e, now),
@@ -319,6 +324,13 @@ impl<F: PathFetcher> VerifPathSet<F> {
             .load()
             .as_ref()
             .map(|p| (p.1, p.0.expiration()));
+        let active_path = self
+            .set
+            .shared
+            .active_path
+            .load()
+            .as_ref()
+            .map(|p| p.0.clone());
         let (initialized, ongoing, has_error) = {
             let sync = self.set.shared.sync.lock().expect("lock poisoned");
             (
@@ -334,6 +346,7 @@ impl<F: PathFetcher> VerifPathSet<F> {
         VerifSnapshot {
             cache,
             active,
+            active_path,
             next_refetch: self.set.internal.next_refetch,
             next_idle_check: self.set.internal.next_idle_check,
             failed_attempts: self.set.internal.failed_attempts,
